@@ -122,6 +122,21 @@ func (w *World) ApplyAPI(call string) error {
 			if err := os.Rename(w.StateDir+".away", w.StateDir); err != nil {
 				return err
 			}
+		case "snapdir-gone":
+			// the directory of the importer's reassembly snapshots cannot be written to for a while
+			if err := os.Rename(w.SnapDir, w.SnapDir+".away"); err != nil {
+				return err
+			}
+			if err := os.WriteFile(w.SnapDir, nil, 0o644); err != nil {
+				return err
+			}
+		case "snapdir-back":
+			if err := os.Remove(w.SnapDir); err != nil {
+				return err
+			}
+			if err := os.Rename(w.SnapDir+".away", w.SnapDir); err != nil {
+				return err
+			}
 		default:
 			return fmt.Errorf("unknown fault %q", arg)
 		}
